@@ -17,22 +17,22 @@ def _sheet(name, header, rows):
 
 def bases():
     b1s = [
-        {"type": "text", "name": "q1", "label": "Q1", f"label::{FR}": "Q1 fr", "hint": "H1", "required": "yes", "relevant": "${q2} = 'a' or ${q2} = \"b\"", "image": "q1.png"},
+        {"type": "text", "name": "q1", "label": "Q1 'one'", f"label::{FR}": "Q1 fr \"un\"", "hint": "H1 it's", "required": "yes", "relevant": "${q2} = 'a' or ${q2} = \"b\"", "image": "q1.png"},
         {"type": "integer", "name": "q2", "label": "Q2", f"label::{FR}": "Q2 fr", "constraint": ". > 0 and . != 7", "constraint_message": "Positive please"},
         {"type": "select_one L", "name": "s1", "label": "S1", f"label::{FR}": "S1 fr"},
         {"type": "select_multiple M", "name": "s2", "label": "S2", f"label::{FR}": "S2 fr", "relevant": "selected(${s1}, 'l1')"},
-        {"type": "begin group", "name": "g1"},
+        {"type": "begin group", "name": "g1", "read_only": "yes"},
         {"type": "note", "label": "A note", f"label::{FR}": "Une note"},
         {"type": "image", "name": "p1", "label": "P1", f"label::{FR}": "P1 fr"},
         {"type": "end group"},
-        {"type": "begin repeat", "name": "r1", "label": "R1", f"label::{FR}": "R1 fr"},
+        {"type": "begin repeat", "name": "r1", "label": "R1", f"label::{FR}": "R1 fr", "required": "yes"},
         {"type": "calculate", "name": "c1", "calculation": "concat('a', ${q1})"},
         {"type": "text", "name": "q3", "label": "Q3", f"label::{FR}": "Q3 fr", "read_only": "yes", "hint": "H3"},
         {"type": "end repeat"},
         {"type": "date", "name": "d1", "label": "D1", f"label::{FR}": "D1 fr"},
     ]
     h1 = ["type", "name", "label", f"label::{FR}", "hint", "required", "relevant", "constraint", "constraint_message", "calculation", "read_only", "image"]
-    c1 = [{"list_name": "L", "name": "l1", "label": "L1", f"label::{FR}": "L1 fr"}, {"list_name": "L", "name": "l2", f"label::{FR}": "L2 fr"},
+    c1 = [{"list_name": "L", "name": "l1", "label": "L1 it's", f"label::{FR}": "L1 fr c'est \"un\""}, {"list_name": "L", "name": "l2", f"label::{FR}": "L2 fr"},
           {"list_name": "M", "name": "m1", "label": "M1", f"label::{FR}": "M1 fr"}, {"list_name": "M", "name": "m2", "label": "M2", f"label::{FR}": "M2 fr"},
           {"list_name": "M", "name": "m3", "label": "M3", f"label::{FR}": "M3 fr"}]
     st = [{"form_title": "Base One", "form_id": "base_one", "version": "2024"}]
@@ -59,7 +59,7 @@ def bases():
     b3s = [
         {"type": "text", "name": "n1", **L("N1"), f"hint::{EN}": "hint one"},
         {"type": "select_one L", "name": "n2", **L("N2")},
-        {"type": "begin group", "name": "gg", **L("GG")},
+        {"type": "begin group", "name": "gg", **L("GG"), "required": "TRUE"},
         {"type": "integer", "name": "n3", **L("N3"), "required": "TRUE"},
         {"type": "decimal", "name": "n4", **L("N4"), "relevant": "${n3} > 1"},
         {"type": "end group"},
@@ -69,7 +69,7 @@ def bases():
         {"type": "text", "name": "n8", **L("N8"), "constraint": "regex(., '^[a-z]+$')"},
     ]
     h3 = ["type", "name", f"label::{EN}", f"label::{FR}", f"hint::{EN}", "required", "relevant", "constraint", "calculation", "parameters", f"image::{EN}"]
-    c3 = [{"list_name": x, "name": f"{x.lower()}{i}", **L(f"{x}{i}")} for x in ("L", "M") for i in (1, 2, 3)]
+    c3 = [{"list_name": x, "name": f"{x.lower()}{i}", **L(f"{x}{i} 'q'")} for x in ("L", "M") for i in (1, 2, 3)]
     base3 = {"sheets": [_sheet("survey", h3, b3s), _sheet("choices", ["list_name", "name", f"label::{EN}", f"label::{FR}"], c3),
                         _sheet("settings", ["form_title", "form_id", "default_language"], [{"form_title": "Base Three", "form_id": "base_three", "default_language": EN}])]}
     # base 4: the survey is the only sheet (the single-sheet fallback of the Excel readers must not be disturbed by an added _sheet)
@@ -171,7 +171,7 @@ def apply_steps(wb, steps, seed):
                         break
         elif k == "truth_spelling":
             # bind flags (BINDING_CONVERSIONS) and sheet-level flags (aliases.yes_no): the disabled column, settings switches
-            for cname in ("required", "read_only", "readonly", "disabled", "allow_choice_duplicates", "omit_instanceid", "omit_instanceID"):
+            for cname in ("required", "read_only", "readonly", "relevant", "disabled", "allow_choice_duplicates", "omit_instanceid", "omit_instanceID"):
                 ci = _col(sh, cname)
                 if ci is None:
                     continue
@@ -187,6 +187,14 @@ def apply_steps(wb, steps, seed):
                     if isinstance(r[ci], str):
                         r[ci] = re.sub(r"'([^']*)'", "‘\\1’", r[ci])
                         r[ci] = re.sub(r'"([^"]*)"', "“\\1”", r[ci])
+            # text cells (labels, hints; plain and translated columns, survey and choices): apostrophes and quotation marks
+            for ci, h in enumerate(sh["header"]):
+                if isinstance(h, str) and re.match(r"\s*(label|hint|caption)\b", h, re.I):
+                    for r in sh["rows"]:
+                        if ci < len(r) and isinstance(r[ci], str):
+                            t = re.sub(r'"([^"]*)"', "“\\1”", r[ci])
+                            t = re.sub(r"(?<!\w)'([^']*)'(?!\w)", "‘\\1’", t)
+                            r[ci] = t.replace("'", "’")
         elif k == "pad_cells":
             for r in sh["rows"]:
                 for i, c in enumerate(r):
